@@ -235,6 +235,16 @@ class SumLoopHooks(sysrules.SysHooks):
     """reads  acc = 0; for k in D(.keys()): acc += D[k]  as the reduction SUM(D)"""
 
     def loop(self, sm, node, st):
+        # for k, x in D.items(): acc += x
+        if isinstance(node, ast.For) and isinstance(node.target, ast.Tuple) and len(node.target.elts) == 2 and len(node.body) == 1 \
+                and isinstance(node.body[0], ast.AugAssign) and isinstance(node.body[0].op, ast.Add) and isinstance(node.body[0].target, ast.Name) \
+                and isinstance(node.iter, ast.Call) and isinstance(node.iter.func, ast.Attribute) and node.iter.func.attr == "items" and not node.iter.args \
+                and isinstance(node.target.elts[1], ast.Name) and isinstance(node.body[0].value, ast.Name) and node.body[0].value.id == node.target.elts[1].id:
+            d = sm.expr(node.iter.func.value, st)
+            from ..summ import to_num
+            acc = node.body[0].target.id
+            st.env[acc] = to_num(st.env[acc]) + RF.atom(("nn", Sym(("SUM", vkey(d)))))
+            return [(st, None)]
         if isinstance(node, ast.For) and isinstance(node.target, ast.Name) and len(node.body) == 1 and isinstance(node.body[0], ast.AugAssign) \
                 and isinstance(node.body[0].op, ast.Add) and isinstance(node.body[0].target, ast.Name):
             acc = node.body[0].target.id
@@ -242,8 +252,15 @@ class SumLoopHooks(sysrules.SysHooks):
             if isinstance(it, ast.Call) and isinstance(it.func, ast.Attribute) and it.func.attr == "keys" and not it.args:
                 it = it.func.value
             val = node.body[0].value
+            # for x in D.values(): acc += x
+            if isinstance(it, ast.Call) and isinstance(it.func, ast.Attribute) and it.func.attr == "values" and not it.args \
+                    and isinstance(val, ast.Name) and val.id == node.target.id:
+                d = sm.expr(it.func.value, st)
+                from ..summ import to_num
+                st.env[acc] = to_num(st.env[acc]) + RF.atom(("nn", Sym(("SUM", vkey(d)))))
+                return [(st, None)]
             # D[k]
-            if isinstance(val, ast.Subscript) and ast.dump(val.value) == ast.dump(it) and isinstance(val.slice, ast.Name) and val.slice.id == node.target.id:
+            if isinstance(val, ast.Subscript) and vkey(sm.expr(val.value, st)) == vkey(sm.expr(it, st)) and isinstance(val.slice, ast.Name) and val.slice.id == node.target.id:
                 d = sm.expr(it, st)
                 from ..summ import to_num
                 st.env[acc] = to_num(st.env[acc]) + RF.atom(("nn", Sym(("SUM", vkey(d)))))
